@@ -619,6 +619,23 @@ func (e *Env) call(n *ast.CallExpr) Val {
 			a := t.materialize(e.eval(n.Args[0]), types.Typ[types.Float64])
 			b := t.materialize(e.eval(n.Args[1]), types.Typ[types.Float64])
 			return scalar(bt, eq(a.S, b.S))
+		case "haskey":
+			e.nargs(n, 2)
+			m := e.eval(n.Args[0])
+			mt, ok := m.T.Underlying().(*types.Map)
+			if !ok || m.K != VScalar {
+				e.fail("haskey needs a map")
+			}
+			k := t.materialize(e.eval(n.Args[1]), mt.Key())
+			if k.K != VScalar {
+				e.fail("haskey: key not expressible")
+			}
+			g := e.guard
+			if g == "" {
+				g = "true"
+			}
+			_, present := t.mapRead(e.st, mt, m.S, k.S, g)
+			return scalar(bt, present)
 		case "nonnil":
 			e.nargs(n, 1)
 			v := e.eval(n.Args[0])
